@@ -1,7 +1,7 @@
 """Writes the TLC configurations spec/MC_MolAssign_*.cfg (C06 / C07). usage: gen_molassign_cfgs.py /verif/spec
 The .cfg files are committed; this script only documents how they were produced."""
 import sys
-INV0 = ['Inv_Conservation','Inv_C06_Homogeneous','Inv_C06_Linked','Inv_C06_Exact','Inv_C06_OnePrimary','Inv_C06_Counts','Inv_C06_Idempotent',
+INV0 = ['Inv_Conservation','Inv_C06_Homogeneous','Inv_C06_Linked','Inv_C06_Exact','Inv_C06_ExactHD','Inv_C06_OnePrimary','Inv_C06_Counts','Inv_C06_Idempotent',
        'Inv_C07_ExactlyOnce','Inv_C07_SamePartition','Inv_C07_NoPremature','Inv_C07_PoolingAgnostic']
 BASE = dict(Kind='"nla"', HD=0, Radius=0, Cap=0, CacheSize=4, ReadLens='{9}', Cells='{1}', Contigs='{1}', Strands='{0}', Sites='{0,1}',
             Lens='{1}', Umis='{0}', Valids='{TRUE}', MaxFrags=4, Scheds='{1000}', Poolings='{0, 1}', Variant='"design"')
@@ -49,3 +49,10 @@ cfg('gen4_q', extra_lines=GEN, inv=['Inv_Conservation'], **dict(C07NLA, Sites='{
 cfg('genchic_q', extra_lines=GEN, inv=['Inv_Conservation'], **dict(C07CHIC, Sites='{0,1,2}', Scheds='{0}', MaxFrags=4))
 cfg('genplain_t', extra_lines=GEN, inv=['Inv_Conservation'], Kind='"plain"', Radius=1, CacheSize=6, Strands='{0, 1}', Sites='{0,1,2}', Lens='{1, 2}', Scheds='{0, 1}', Poolings='{0, 1}', MaxFrags=3)
 cfg('gen4_t', extra_lines=GEN, inv=['Inv_Conservation'], **dict(C07NLA, Sites='{0,1,2,3}', Scheds='{0, 1}', Poolings='{0}', MaxFrags=4))
+
+# one bucket holding ejectable / open / ejectable molecules + a later fragment joining the open one (5 fragments), and
+# a molecule whose second fragment extends its right border + unrelated fragment + late joiner (4 fragments): plain
+# fragments (start-or-end matching lets a later fragment join by its END), cache 6, lengths {1,3}
+PLAIN5 = dict(Kind='"plain"', CacheSize=6, Strands='{0}', Sites='{0,1,2}', Lens='{1, 3}', Umis='{0, 1}', MaxFrags=5, Scheds='{1000, 0}', Poolings='{0, 1}')
+cfg('c07plain5_t', **PLAIN5)
+cfg('genplain5_t', extra_lines=GEN, inv=['Inv_Conservation'], **dict(PLAIN5, Scheds='{0}'))
